@@ -249,12 +249,29 @@ def eval_formulas(base_sheets, formulas, sheet='S', first_col=27, ncols=8, overr
         res = []
         if o[0] == 'value':
             tr = o[1]
+            before = None
+            if overrides:
+                # executors on one class object are independent: one without overrides is evaluated before the overriding one
+                # exists and another one after it has been used; both must see the plain workbook
+                shadow = tr.executor()
+                before = [tr.get(home, get_column_letter(split_a1(addr)[0]), str(split_a1(addr)[1]), shadow) for addr, home in zip(addrs, homes)]
             ex = tr.executor()
             if overrides:
                 ex.set_cells([Cell(t, c, r, dec(v)) for t, c, r, v in overrides])
             for addr, home in zip(addrs, homes):
                 c, r = split_a1(addr)
                 res.append(tr.get(home, get_column_letter(c), str(r), ex))
+            if before is not None:
+                # the executor that was there first is read again (nothing was set on it), then a brand-new one
+                for make_witness in (lambda: shadow, tr.executor):
+                  witness = make_witness()
+                  for i, (addr, home) in enumerate(zip(addrs, homes)):
+                    c, r = split_a1(addr)
+                    after = tr.get(home, get_column_letter(c), str(r), witness)
+                    if show_outcome(after) != show_outcome(before[i]) and 'timeout' not in (after[0], before[i][0]) and 'TODAY' not in str(formulas[i]) \
+                            and res[i][0] != 'foreign':
+                        res[i] = ('foreign', 'SharedStateBetweenExecutors',
+                                  f'an executor without overrides saw {show_outcome(before[i])} before and {show_outcome(after)} after another executor on the same class was given overrides')
             return res
         for addr, home in zip(addrs, homes):
             c, r = split_a1(addr)
